@@ -184,6 +184,9 @@ func (fl *Flow) edgeFacts(from, to *ssa.BasicBlock) []Fact {
 	if len(from.Instrs) == 0 {
 		return nil
 	}
+	if _, reachable := fl.in[from]; !reachable || deadEdge(from, to) {
+		return nil // an edge that is never taken establishes nothing
+	}
 	iff, ok := from.Instrs[len(from.Instrs)-1].(*ssa.If)
 	if !ok || len(from.Succs) != 2 {
 		return nil
@@ -297,6 +300,9 @@ func NewFlowOpt(p *Prog, fn *ssa.Function, normGetters bool) *Flow {
 		inWork[b] = false
 		out := outOf(b)
 		for _, succ := range b.Succs {
+			if deadEdge(b, succ) {
+				continue // the untaken side of a branch on a constant
+			}
 			cand := out.clone()
 			for _, f := range fl.edgeFacts(b, succ) {
 				cand[f] = true
